@@ -420,26 +420,27 @@ func (g *progGen) stmt(ind, depth int) {
 			return
 		}
 		if typ == "{}num" {
+			// flow-insensitive invariant: v.keys are present after EVERY assignment to v
+			// (a later statement in a loop body runs before an earlier one on the next iteration)
 			e, keys := g.mapLit(ed)
+			have := map[string]bool{}
+			for _, k := range keys {
+				have[k] = true
+			}
+			extra := ""
+			for _, k := range v.keys {
+				if !have[k] {
+					extra += " " + k + ":" + g.numLit()
+				}
+			}
+			e = strings.TrimSuffix(e, "}") + extra + "}"
 			g.line(ind, v.name+" = "+e)
-			v.keys = keys
 		} else {
 			e := g.expr(typ, ed)
 			g.line(ind, v.name+" = "+e)
 			if strings.HasPrefix(typ, "[]") {
-				v.alen = g.staticLen(typ, e)
-				if g.loops > 0 {
-					v.alen = 0
-				}
-			}
-		}
-		if g.loops > 0 || depth > 0 {
-			// an assignment under a condition/loop makes static facts uncertain
-			if strings.HasPrefix(typ, "[]") {
+				// same reasoning: after any reassignment nothing is known about the length
 				v.alen = 0
-			}
-			if typ == "{}num" {
-				v.keys = nil
 			}
 		}
 		g.feat["assign"]++
